@@ -377,7 +377,8 @@ func c16Sig(o c16Outcome, text string) string {
 		}
 		return "C16:hang:other"
 	case "stack-overflow", "fatal", "oom":
-		if o.class == "stack-overflow" && c16HasRecursiveRecord(text) {
+		if c16HasRecursiveRecord(text) {
+			// the unbounded recursion ends as a stack overflow or, under the address-space limit, as out of memory
 			return "C16:stack-overflow:recursive-record"
 		}
 		return "C16:" + o.class + ":" + o.detail
